@@ -15,12 +15,12 @@ CHECKS = {
     engine="derivation_sim", level="exploration", design="DESIGN.md section 5",
     technique="deterministic simulation with a fault-injected PRF: HMAC-SHA512 seam replaced by a chosen-output stub under a seeded fault plan; lock-step executable BIP32 reference model as oracle",
     text="Seeded search over roots (seed or parsed extended private key with scalar class, depth 0..254, fingerprint, child number, chain code), operation sequences and PRF fault plans that plant VALID algebraic corner outputs (IL=0/1/n-1, child=1/n-1/leading-zero bytes, IL=k_par, IR=00/ff) at chosen (operation, call) sites; a fault-free batch runs separately. Every HMAC input the library forms and every node it returns (key as 32 bytes, chain code, depth, index, parent fingerprint, xprv/xpub strings, at every level) must equal the reference model's. Every cell of the valid-corner fault matrix fires on every run of the check.",
-    note="Trusted: the harness reference model (own secp256k1, BIP32, Base58Check, RFC 2104 HMAC; self-tested against BIP32 vector 1 and the ecdsa package at start-up); ecdsa fallback back end only. Public-side disagreements belong to C02 and are only counted."),
+    note="Trusted: the harness reference model (own secp256k1, BIP32, Base58Check, RFC 2104 HMAC; self-tested against BIP32 vector 1 and the ecdsa package at start-up); main batch on the ecdsa fallback back end (the only real one in this sandbox) plus an 800-run / 120 s batch with sim/fake_secp.py registered as pysecp256k1 (a stub of the C library's documented contract) so the primary-path glue is exercised too. Public-side disagreements belong to C02 and are only counted."),
  "C18": dict(
     engine="derivation_sim", level="fault_enumeration", design="DESIGN.md section 5",
     technique="deterministic simulation with a fault-injected PRF: every invalid-output kind planted at every derivation site and level position (fault matrix enumerated, parents seeded); reference model decides validity",
     text="Fault enumeration at the PRF seam: IL in {n, n+1, 2^256-1}, IL = n-k_par (zero private child / public point at infinity), master IL = 0, BIP85 secret 0 / n / 2^256-1, each planted at master, private-normal, private-hardened, public-normal, BIP85-wif and BIP85-xprv sites at first/middle/last/only level of a path, among pass-through calls. Whenever the reference model declares the (substituted) output invalid the call must raise; returning a node or string is a violation. All 58 matrix cells fire on every run; parents, indexes and histories around the fault are seeded, not enumerated.",
-    note="Trusted: reference model's validity verdict; ecdsa fallback back end (the pysecp256k1 branch is dead code in this sandbox). IL=0 for a child is valid per BIP32 and is not planted as invalid."),
+    note="Trusted: reference model's validity verdict; main batch on the ecdsa fallback back end, plus a second batch with a stub of pysecp256k1's documented contract (sim/fake_secp.py) so that the primary-path branches (ec_seckey_verify / tweak_add refusals) are exercised; the real libsecp256k1 is absent here. IL=0 for a child is valid per BIP32 and is not planted as invalid."),
 }
 
 CHECKS.update({
